@@ -9,6 +9,8 @@ PROPS_LOWER = "RotoV.Props.C01Lower" # T5: Spec value = value of the lowering mo
 PROPS_LIR = "RotoV.Props.C01Lir"     # LIR layer: the model of lir/lower.rs (scalar MIR CFG -> LIR CFG) preserves execution
 PROPS_MATCH = "RotoV.Props.C01Match" # match: Spec.evalArms is first-match; the guard chains of mir/lower/match_expr.rs (generated filters) are first-match
 MATCH_EXTRA = ["RotoV.Model.C01MatchLower", "RotoV.Model.Spec"]
+PROPS_CG = "RotoV.Props.C01Cg"       # code-generation layer: the generated control-flow arms of FuncGen::instruction emit code that runs as the LIR does
+CG_EXTRA = ["RotoV.Model.C01CgBase", "RotoV.Model.C01Cg", "RotoV.Lemmas.C01CgSim", "RotoV.Model.C01Lir"]
 LIR_EXTRA = ["RotoV.Model.C01Lir", "RotoV.Lemmas.C01LirSim", "RotoV.Model.C01MirRun"]
 LOWER_EXTRA = ["RotoV.Model.C01Resolve", "RotoV.Model.C01MirRun", "RotoV.Lemmas.C01Agree", "RotoV.Lemmas.C01Shape",
                "RotoV.Lemmas.C01MirOps", "RotoV.Lemmas.C01SpecOps", "RotoV.Lemmas.C01MirComplete", "RotoV.Lemmas.C01ScalarCode", "RotoV.Model.TraceSpec", "RotoV.Model.LowerS", "RotoV.Lemmas.LowerS",
@@ -31,7 +33,7 @@ def run(ctx):
     import glob
     for f in glob.glob(os.path.join(common.VERIF, "evidence", "replays", "C01-*.json")):
         os.remove(f)
-    ctx.extract(["optables", "dce", "c01match"])
+    ctx.extract(["optables", "dce", "c01match", "c01cg"])
     theorems, examples, axioms = [], 0, {}
     if os.path.exists(_ops_file()):
         ctx.prove(PROPS_OPS, extra_modules=["RotoV.Lemmas.Scalar", "RotoV.Model.RustStd", "RotoV.Model.Lir", "RotoV.Model.Clif"])
@@ -57,6 +59,11 @@ def run(ctx):
         axioms.update(ctx.coverage.get("axioms", {}))
     if os.path.exists(os.path.join(common.LEAN, *PROPS_MATCH.split(".")) + ".lean"):
         ctx.prove(PROPS_MATCH, extra_modules=MATCH_EXTRA)
+        theorems += ctx.coverage.get("theorems", [])
+        examples += ctx.coverage.get("nonvacuity_examples", 0)
+        axioms.update(ctx.coverage.get("axioms", {}))
+    if os.path.exists(os.path.join(common.LEAN, *PROPS_CG.split(".")) + ".lean"):
+        ctx.prove(PROPS_CG, extra_modules=CG_EXTRA)
         theorems += ctx.coverage.get("theorems", [])
         examples += ctx.coverage.get("nonvacuity_examples", 0)
         axioms.update(ctx.coverage.get("axioms", {}))
